@@ -13,3 +13,6 @@ Definition sset (l : list string) : list string := ssort (snodup l).      (* tup
 
 Fixpoint slookup {V} (t : list (string * V)) (k : string) : option V :=
   match t with [] => None | (k', v) :: r => if String.eqb k k' then Some v else slookup r k end.
+
+Definition sl_eqb := list_eqb String.eqb.
+Definition tab_fun {V} (d : V) (t : list (string * V)) (k : string) : V := match slookup t k with Some v => v | None => d end.
